@@ -303,6 +303,25 @@ theorem parse_total_memo (toks : List Tok) :
   refine ⟨e, ?_⟩
   rw [e]; exact hp
 
+/-- **Whole or rejected, for the parser as the repository runs it** (with the memo table; every grammar; a depth budget
+    that suffices for the parser without a table - `parse_total` gives one for the grammar of this run): whenever the
+    memoised `AstBuilder.parse` accepts, the tree's leaves are exactly the token list - nothing dropped, duplicated or
+    invented - and the same token list with a non-empty tail appended is never accepted with that tree. -/
+theorem whole_or_rejected_memo (fuel : Nat) (entry : String) (toks : List Tok) (t : PTree)
+    (hd : astBuild G fuel entry toks ≠ .depth) (h : (astBuildM G fuel entry toks).1 = .accept t) :
+    t.leaves = toks ∧ ∀ extra : List Tok, extra ≠ [] → astBuild G fuel entry (toks ++ extra) ≠ .depth →
+      (astBuildM G fuel entry (toks ++ extra)).1 ≠ .accept t := by
+  have e := memo_transparent G fuel entry toks hd
+  rw [e] at h
+  refine ⟨?_, ?_⟩
+  · rcases whole_or_rejected G fuel entry toks with ⟨t', ht, hl⟩ | h' | h'
+    · rw [h] at ht; cases ht; exact hl
+    · rw [h] at h'; cases h'
+    · exact absurd h' hd
+  · intro extra hx hd'
+    rw [memo_transparent G fuel entry (toks ++ extra) hd']
+    exact no_silent_truncation G fuel entry toks extra t hx h
+
 /-- a table that is NOT sound does change the answer (why the hypothesis is there, and what a table kept across two
     `AstBuilder.parse` calls would do): with a stale entry for `(EntryPointToken, 2)` the tokens `= 1` are rejected -/
 example : (pegGetM generated 20 "EntryPointToken" [("EqOperatorToken", "="), ("LiteralToken", "1")]
